@@ -351,6 +351,12 @@ class ANSIContext:
 class HTMLANSIContext(ANSIContext):
     """A context that sets HTML colors instead of ANSI terminal escapes."""
 
+    LIGHT_COLORS = {
+        'black': 'dimgray', 'red': 'lightcoral', 'green': 'lightgreen', 'yellow': 'lightyellow', 'blue': 'lightblue',
+        'magenta': 'violet', 'cyan': 'lightcyan', 'white': 'white'
+    }
+    """HTML names for the bright (``LIGHT*_EX``) variants of the eight ANSI colors."""
+
     @staticmethod
     def get_fore(color: AnsiFore) -> str:
         for name in ('black', 'red', 'green', 'yellow', 'blue', 'magenta', 'cyan', 'white'):
@@ -358,6 +364,8 @@ class HTMLANSIContext(ANSIContext):
                 return "gray"
             elif color == getattr(Fore, name.upper()):
                 return name
+            elif color == getattr(Fore, f"LIGHT{name.upper()}_EX"):
+                return HTMLANSIContext.LIGHT_COLORS[name]
         raise ValueError(f"Unknown ANSI color: \"{color}\"")
 
     @staticmethod
@@ -365,6 +373,8 @@ class HTMLANSIContext(ANSIContext):
         for name in ('black', 'red', 'green', 'yellow', 'blue', 'magenta', 'cyan', 'white'):
             if color == getattr(Back, name.upper()):
                 return name
+            elif color == getattr(Back, f"LIGHT{name.upper()}_EX"):
+                return HTMLANSIContext.LIGHT_COLORS[name]
         raise ValueError(f"Unknown ANSI color: \"{color}\"")
 
     def _set_codes(self):
